@@ -12,6 +12,7 @@ import (
 
 	"github.com/opencontainers/go-digest"
 	ocispec "github.com/opencontainers/image-spec/specs-go/v1"
+	"oras.land/oras-go/v2/errdef"
 	. "oras.land/oras-go/v2/internal/zzverif/common"
 	"oras.land/oras-go/v2/registry/remote"
 	"verif.local/engine/driver"
@@ -48,11 +49,12 @@ type world struct {
 	preIndex string
 	skipGC   bool
 	fault    bool
+	limit    bool       // Repository.MaxMetadataBytes is set below the size of R2
 	progs    [][]string // per goroutine: ops "push:R1", "del:R0", "push:Q"
 	scenario string
 }
 
-func universe() (*DAG, int, int, []int, int) {
+func universe(padR2 ...bool) (*DAG, int, int, []int, int) {
 	d := &DAG{Name: "c14"}
 	c := d.Blob("C", MTConfig, "{}")
 	l := d.Blob("L", MTLayer, "l")
@@ -67,6 +69,10 @@ func universe() (*DAG, int, int, []int, int) {
 			sd := d.Nodes[s].Desc
 			sd.MediaType, sd.Size = MTDockerManifest, sd.Size+1
 			o.SubjectDesc = &sd
+			if len(padR2) > 0 && padR2[0] {
+				// R2 is larger than the Repository's MaxMetadataBytes of the "limit" scenario
+				o.Annotations = map[string]string{"n": "2", "pad": strings.Repeat("x", 3000)}
+			}
 		}
 		refs = append(refs, d.Manifest(fmt.Sprintf("R%d", i), c, nil, o))
 	}
@@ -137,6 +143,19 @@ func jobs(tier string) []driver.Job {
 			}
 		}
 	}
+	// a referrer larger than Repository.MaxMetadataBytes next to one that fits
+	for sh := 0; sh < 2; sh++ {
+		sh := sh
+		w := world{preIndex: "valid", limit: true, progs: [][]string{{"push:R1"}, {"push:R2"}}}
+		w.scenario = "push2/pre=valid/oversize-R2"
+		b := explore.Bounds{Dev: 2}
+		name := fmt.Sprintf("%s/%v/shard%d.2", w.scenario, b, sh)
+		out = append(out, driver.Job{Name: name, Run: func(c *driver.Ctx) {
+			var merged bool
+			c.Explore(driver.Scenario{Name: name, Bases: []int{0, 1, 2}, Bounds: b, Shard: sh, NShard: 2,
+				Make: func() (func(), func(*vs.Result) *driver.Fail) { return w.make(c, &merged) }})
+		}})
+	}
 	return append(out, seamJobs(th)...)
 }
 
@@ -150,7 +169,7 @@ func indexOf(descs []ocispec.Descriptor) (digest.Digest, []byte) {
 }
 
 func (w world) make(c *driver.Ctx, merged *bool) (func(), func(*vs.Result) *driver.Fail) {
-	d, s, s2, refs, q := universe()
+	d, s, s2, refs, q := universe(w.limit)
 	*merged = false
 	g := NewRegistry(host, Profile{})
 	repo, err := remote.NewRepository(host + "/" + repoName)
@@ -159,6 +178,9 @@ func (w world) make(c *driver.Ctx, merged *bool) (func(), func(*vs.Result) *driv
 	}
 	repo.Client = g
 	repo.SkipReferrersGC = w.skipGC
+	if w.limit {
+		repo.MaxMetadataBytes = 2048 // R0, R1 and their index fit, R2 (3 KB of annotation) does not
+	}
 	rr := g.Repo(repoName)
 	// sequential setup straight into the registry: blobs, subjects, R0 and the pre-existing index
 	for _, id := range []int{0, 1} {
@@ -292,6 +314,18 @@ func (w world) make(c *driver.Ctx, merged *bool) (func(), func(*vs.Result) *driv
 		}
 		if len(g.Rejects) > 0 {
 			return &driver.Fail{Sig: "non-conforming request emitted", Detail: detail(strings.Join(g.Rejects, "\n"))}
+		}
+		if w.limit {
+			// the push of the oversize referrer may be refused (size limit): whatever it answered, the listing
+			// below must equal the manifests that are live in the registry
+			anyErr = false
+			for _, rs := range results {
+				for _, r := range rs {
+					if r.err != nil && !(r.op == "push:R2" && errors.Is(r.err, errdef.ErrSizeExceedsLimit)) {
+						anyErr = true
+					}
+				}
+			}
 		}
 		if injected == "" && anyErr {
 			return &driver.Fail{Sig: "fault-free referrer operation failed", Detail: detail("")}
